@@ -117,6 +117,56 @@ thread_local! {
     static LEDGER: RefCell<Ledger> = RefCell::new(Ledger { entries: Vec::new(), anomalies: Vec::new(), obs_log: Vec::new(), who: Who::Container, ctx: Ctx::Plain });
 }
 
+// ------------------------------------------------------------------------------------------------
+// panic injection: a fuse that every user closure of the harness and every element trait impl ticks
+// ------------------------------------------------------------------------------------------------
+
+thread_local! {
+    static FUSE: std::cell::Cell<u64> = std::cell::Cell::new(0);
+    static TICKS: std::cell::Cell<u64> = std::cell::Cell::new(0);
+    static FIRED: std::cell::Cell<bool> = std::cell::Cell::new(false);
+}
+
+/// The message of an injected panic (recognised after `vkit::catch`).
+pub const INJECTED: &str = "c18-injected-panic";
+
+/// Called by every harness closure handed to vek / std and by `Tracked`'s Default / Debug / Display / PartialEq /
+/// Ord / Hash. Counts; when the fuse is armed with k, the k-th call panics (once: the fuse is then spent).
+pub fn tick() {
+    let _ = TICKS.try_with(|t| t.set(t.get() + 1));
+    let fire = FUSE
+        .try_with(|f| {
+            let v = f.get();
+            if v > 0 {
+                f.set(v - 1);
+            }
+            v == 1
+        })
+        .unwrap_or(false);
+    if fire {
+        let _ = FIRED.try_with(|f| f.set(true));
+        panic!("{}", INJECTED);
+    }
+}
+/// Arm the fuse: the k-th `tick` from now panics (k >= 1). Resets the tick counter.
+pub fn arm(k: u64) {
+    FUSE.with(|f| f.set(k));
+    TICKS.with(|t| t.set(0));
+    FIRED.with(|f| f.set(false));
+}
+/// Disarm; returns whether the injected panic was raised.
+pub fn disarm() -> bool {
+    FUSE.with(|f| f.set(0));
+    FIRED.with(|f| f.replace(false))
+}
+/// Ticks since the last `arm` / `reset_ticks`.
+pub fn ticks() -> u64 {
+    TICKS.with(|t| t.get())
+}
+pub fn reset_ticks() {
+    TICKS.with(|t| t.set(0));
+}
+
 fn with<R>(f: impl FnOnce(&mut Ledger) -> R) -> Option<R> {
     // try_with / try_borrow_mut: never panic (Drop may run during unwinding or thread teardown).
     LEDGER.try_with(|l| l.try_borrow_mut().ok().map(|mut g| f(&mut g))).ok().flatten()
@@ -131,6 +181,8 @@ pub fn reset() {
         l.who = Who::Container;
         l.ctx = Ctx::Plain;
     });
+    disarm();
+    reset_ticks();
 }
 
 #[repr(C)]
@@ -157,6 +209,7 @@ pub fn fresh(val: u32) -> Tracked {
 
 impl Default for Tracked {
     fn default() -> Self {
+        tick();
         register(DEFAULT_VAL, true, None)
     }
 }
@@ -191,6 +244,7 @@ impl Clone for Tracked {
 impl fmt::Debug for Tracked {
     fn fmt(&self, f: &mut fmt::Formatter) -> fmt::Result {
         observe(self, Obs::Debug);
+        tick();
         write!(f, "t{}", self.val)
     }
 }
@@ -198,6 +252,7 @@ impl fmt::Debug for Tracked {
 impl fmt::Display for Tracked {
     fn fmt(&self, f: &mut fmt::Formatter) -> fmt::Result {
         observe(self, Obs::Display);
+        tick();
         write!(f, "t{}", self.val)
     }
 }
@@ -206,6 +261,7 @@ impl PartialEq for Tracked {
     fn eq(&self, other: &Tracked) -> bool {
         observe(self, Obs::Eq);
         observe(other, Obs::Eq);
+        tick();
         self.val == other.val
     }
 }
@@ -216,6 +272,7 @@ impl Ord for Tracked {
     fn cmp(&self, other: &Tracked) -> std::cmp::Ordering {
         observe(self, Obs::Cmp);
         observe(other, Obs::Cmp);
+        tick();
         self.val.cmp(&other.val)
     }
 }
@@ -228,6 +285,7 @@ impl PartialOrd for Tracked {
 impl Hash for Tracked {
     fn hash<H: Hasher>(&self, h: &mut H) {
         observe(self, Obs::Hash);
+        tick();
         h.write_u32(self.val);
     }
 }
